@@ -412,3 +412,46 @@ func checkC09OuterWord(c *Ctx, n int) {
 		})
 	}
 }
+
+// checkC09CompletionMode: in completion mode nothing is executed, whatever the argument vector - the
+// empty one included (the words typed so far may be none at all): the completion handler receives the
+// candidates, no Execute and no CommandHandler runs, no error is returned.
+func checkC09CompletionMode(c *Ctx, n int) {
+	r := c.Rng
+	for i := 0; i < n; i++ {
+		cs := &Case{Name: "app", NsDelim: ".", EnvNsDelim: "_", CmdHandler: r.Intn(2) == 0}
+		cs.Build = []BuildOp{
+			{Kind: "addgroup", Target: 1, Short: "Application Options", Struct: &StructDesc{Fields: []FieldDesc{{Name: "V", Exported: true, Kind: "v", Ty: "bool", Tag: `short:"v" long:"verbose"`}}}},
+			{Kind: "addcommand", Target: 1, Name: "add", Short: "add", Struct: &StructDesc{}, Commander: 1},
+			{Kind: "addcommand", Target: 1, Name: "remove", Short: "remove", Struct: &StructDesc{}, Commander: 1},
+		}
+		if r.Intn(2) == 0 {
+			cs.Build = append(cs.Build, BuildOp{Kind: "setcmd", Target: 1, Attr: "subopt", Vals: []string{"1"}})
+		}
+		args := [][]string{{}, {}, {""}, {"a"}, {"add"}, {"add", ""}, {"--v"}, {"-v", "re"}}[r.Intn(8)]
+		cs.Ops = []Op{{Kind: "complete", Args: args}}
+		cs.Description = describeOps(cs)
+		c.RunCases([]*Case{cs}, func(cr *CaseResult) {
+			c.classifyCase(cr)
+			c.Class(fmt.Sprintf("c09/completion-mode: words=%d handler=%v", len(args), cs.CmdHandler))
+			c.Distinct(cs.Description + fmt.Sprint(cs.CmdHandler, len(cs.Build)))
+			runs, called := 0, false
+			for _, l := range cr.Impl {
+				if strings.HasPrefix(l, "LOG exec ") || strings.HasPrefix(l, "LOG cmdhandler ") {
+					runs++
+				}
+				if strings.HasPrefix(l, "COMP ") || l == "COMP" {
+					called = true
+				}
+			}
+			in := map[string]interface{}{"case": cs.Description, "typed_words": args, "command_handler_installed": cs.CmdHandler}
+			ok := runs == 0 && called
+			if !ok {
+				in["case_file"] = c.saveCase(cr)
+			}
+			c.Check("completion-mode-executes-nothing", ok, "C09:completion-mode", in,
+				fmt.Sprintf("%d runs of Execute / CommandHandler; completion handler called: %v; %s", runs, called, strings.Join(cr.Impl, " | ")),
+				"no run, the completion handler called with the candidates")
+		})
+	}
+}
